@@ -42,6 +42,7 @@ inline std::vector<int> g_seamable;       // generator entries with <= 400 seam 
 struct Recorder {
   uint64_t evsig = 0;
   std::vector<SeamItem> *items = nullptr;
+  std::vector<std::array<int64_t, 3>> *events = nullptr;  // (kind, a, b) in order, when requested
   // deviation
   int64_t target = -1;  // running index of the seam value to replace
   uint32_t replacement = 0;
@@ -73,6 +74,7 @@ inline void symbols_cb(void *ctx, uint32_t *symbols, int n, int nc) {
 }
 inline void event_cb(void *ctx, int kind, int64_t a, int64_t b) {
   Recorder *r = static_cast<Recorder *>(ctx);
+  if (r->events) r->events->push_back({kind, a, b});
   // order-insensitive set signature
   r->evsig += mc::mix64(mc::hash_combine(mc::hash_combine(kind + 1, (uint64_t)a), (uint64_t)b)) | 1;
 }
@@ -218,6 +220,35 @@ inline void build_generators() {
       EncCfg c = gs::mesh_cfg(mk, sp);
       c.qbits = {12};
       add_gen("E:strip300:m" + std::to_string(mk) + ":s" + std::to_string(sp), g, c);
+    }
+}
+
+// Larger generators, used by the frozen corpus (C05) only: sequentially coded
+// integer point clouds with N distinct values per component, N = 2^k + 1, so
+// that every raw-scheme symbol-count class (and with it every rANS precision
+// 12..20) occurs in a frozen stream. Too large for byte-level fault enumeration.
+inline void build_large_generators() {
+  for (int k = 2; k <= 14; ++k)
+    for (int sp : {0, 5, 7}) {
+      const int n = 3 * (1 << k) / 4 + 1;  // number of distinct symbols, inside the class [2^(k-1), 2^k)
+      const int reps = 8;                  // every symbol occurs 8 times, which makes the raw scheme the cheaper one
+      GeomDef g;
+      g.is_mesh = false;
+      g.num_points = n * reps;
+      AttDef pos;
+      pos.type = GeometryAttribute::POSITION;
+      pos.nc = 3;
+      pos.uid = 0;
+      pos.dt = DT_INT32;
+      // no prediction (forced below): the coded symbols are the zig-zagged values themselves
+      for (int i = 0; i < n * reps; ++i) pos.entries.push_back(bytes_of(std::vector<int32_t>{(int32_t)(((int64_t)i * 7) % n), 0, 0}));
+      g.atts = {pos};
+      EncCfg c;
+      c.method = POINT_CLOUD_SEQUENTIAL_ENCODING;
+      c.speed_enc = c.speed_dec = sp;
+      c.qbits = {0};
+      c.pred = {(int)PREDICTION_NONE};
+      add_gen("L:cloud_seq_i32:distinct" + std::to_string(n) + "x8:s" + std::to_string(sp), g, c);
     }
 }
 
